@@ -13,7 +13,8 @@ EXTENDS Naturals, Sequences, FiniteSets, TLC
 CONSTANT MaxSteps
 
 VARIABLES
-  dirKind,   \* "temp": launch() made the data directory; "user": the caller supplied it
+  dirKind,   \* "temp": launch() made the data directory; "user": the caller supplied it (data_directory=);
+             \* "cfg": the caller's directory is named by the configuration object handed to launch()
   dirExists,
   attempted, \* a control connection attempt is under way / succeeded
   conn,      \* "none" | "pending" | "up" | "failed"
@@ -33,7 +34,7 @@ VARIABLES
 vars == <<dirKind, dirExists, attempted, conn, stage, subscribed, owned, saw100, res, launch, nlaunch, tmo, terms, exited, wrote, steps>>
 
 Init ==
-  /\ dirKind \in {"temp", "user"} /\ dirExists = TRUE
+  /\ dirKind \in {"temp", "user", "cfg"} /\ dirExists = TRUE
   /\ attempted = FALSE /\ conn = "none" /\ stage = "none" /\ subscribed = FALSE /\ owned = FALSE /\ saw100 = FALSE
   /\ res = "p" /\ launch = "p" /\ nlaunch = 0 /\ tmo = "armed" /\ terms = 0 /\ exited = FALSE /\ wrote = <<>> /\ steps = 0
 
@@ -118,7 +119,7 @@ SuccessOnlyAfterBootstrap == launch = "ok" => saw100 /\ subscribed /\ owned    \
 FailsIfEndedOrTimedOutFirst == ((exited \/ tmo = "fired") /\ res # "ok") => launch = "err"
 TermOnTimeout == tmo = "fired" => (terms >= 1 \/ exited)
 TempDirRemoved == (exited /\ dirKind = "temp") => ~dirExists
-UserDirKept == dirKind = "user" => dirExists
+UserDirKept == dirKind \in {"user", "cfg"} => dirExists
 TempDirKeptWhileRunning == ~exited => dirExists
 NoFlip == [][launch # "p" => launch' = launch]_vars
 TypeOK == launch \in {"p", "ok", "err"}
